@@ -326,7 +326,7 @@ def cffi_measure(ffi, r, write_test=True):
                 pl["pos"] = -2          # offsetof and field metadata disagree
         places.append(pl)
         wp = {"bf": isbf, "pos": -1, "w": -1}       # -1: not observed
-        if write_test and isbf and 0 < w < 64:
+        if write_test and isbf and 0 < w <= 64:
             try:
                 p = ffi.new(ffi.getctype(ct, "*"))
                 sgn = int(ffi.cast(cf.type, -1)) < 0
